@@ -5,7 +5,7 @@ Import ListNotations.
 From BC Require Import Conc.RollLTS.
 
 Definition has (fl : fid -> option (list rrec)) (f p : nat) (v : option val) : Prop :=
-  exists recs, fl f = Some recs /\ p < length recs /\ v = option_map rv (nth_error recs p).
+  exists recs, fl f = Some recs /\ p < length recs /\ v = match nth_error recs p with Some r => rv r | None => None end.
 Definition covered (fl : fid -> option (list rrec)) (f n : nat) : Prop :=
   exists recs, fl f = Some recs /\ n <= length recs.
 Definition ext (fl fl' : fid -> option (list rrec)) : Prop :=
@@ -28,8 +28,8 @@ Proof.
 Qed.
 
 Record RI (s : rst) : Prop := mkRI {
-  ri_idx : forall k f p, ridx s k = Some (f, p) -> exists v, has (rfiles s) f p v;
-  ri_wr : forall k f p, wstate s = WAppended k (f, p) -> exists v, has (rfiles s) f p v;
+  ri_idx : forall k f p, ridx s k = Some (f, p) -> exists v, has (rfiles s) f p (Some v);      (* index entries point at put records *)
+  ri_wr : forall k f p, wstate s = WAppended k (f, p) -> exists v, has (rfiles s) f p (Some v);
   ri_look : forall t k f p c, rreaders s t = GLooked k (Some (f, p)) c -> has (rfiles s) f p c;
   ri_miss : forall t k c, rreaders s t = GLooked k None c -> c = None;
   ri_maps : forall t f n, rmaps s t f = Some n -> covered (rfiles s) f n;
@@ -63,19 +63,19 @@ Proof.
   intros f Hf. destruct (Nat.eqb_spec f 0); [lia|reflexivity].
 Qed.
 
-Lemma rvalue_has s f p v : has (rfiles s) f p v -> rvalue_at s (f, p) = v.
+Lemma rvalue_has s (f : fid) p v : has (rfiles s) f p v -> rvalue_at s (f, p) = v.
 Proof. intros (recs & Hf & _ & ->). unfold rvalue_at; cbn. now rewrite Hf. Qed.
 
 Theorem step_RI s e s' : RI s -> rstep true s e = Some s' -> RI s'.
 Proof.
-  intros I H. destruct e as [k v| | | |t k|t|t]; cbn [rstep] in H.
+  intros I H. destruct e as [k v|k| | | |t k|t|t]; cbn [rstep] in H.
   - (* append *)
     destruct (wstate s) eqn:Hw; try discriminate. destruct (rfiles s (ractive s)) as [recs|] eqn:Ha; [|discriminate].
     injection H as <-.
-    pose proof (ext_append _ _ _ (mkRRec k v) Ha) as He.
+    pose proof (ext_append _ _ _ (mkRRec k (Some v)) Ha) as He.
     constructor; cbn.
     + intros k0 f p Hi. destruct (ri_idx _ I _ _ _ Hi) as (v0 & Hh). exists v0. eapply has_ext; eassumption.
-    + intros k0 f p Heq. injection Heq as <- <- <-. exists (Some v). exists (recs ++ [mkRRec k v]).
+    + intros k0 f p Heq. injection Heq as <- <- <-. exists v. exists (recs ++ [mkRRec k (Some v)]).
       rewrite upd_same. split; [reflexivity|]. split; [rewrite app_length; cbn; lia|].
       rewrite nth_error_app2 by lia. now rewrite Nat.sub_diag.
     + intros t k0 f p c Hr. eapply has_ext; [exact He|]. eapply ri_look; eassumption.
@@ -85,25 +85,57 @@ Proof.
     + apply (ri_nofail _ I).
     + rewrite upd_same. discriminate.
     + intros f Hf. rewrite upd_other by lia. now apply (ri_above _ I).
-  - (* roll *)
-    destruct (wstate s) as [|k loc|] eqn:Hw; try discriminate.
-    destruct (rfiles s (S (ractive s))) eqn:Hn; [discriminate|]. injection H as <-.
-    pose proof (ext_create _ _ Hn) as He.
+  - (* append a tombstone *)
+    destruct (wstate s) eqn:Hw; try discriminate. destruct (rfiles s (ractive s)) as [recs|] eqn:Ha; [|discriminate].
+    injection H as <-.
+    pose proof (ext_append _ _ _ (mkRRec k None) Ha) as He.
     constructor; cbn.
     + intros k0 f p Hi. destruct (ri_idx _ I _ _ _ Hi) as (v0 & Hh). exists v0. eapply has_ext; eassumption.
-    + intros k0 f p Heq. injection Heq as <- ->. destruct (ri_wr _ I _ _ _ Hw) as (v0 & Hh). exists v0. eapply has_ext; eassumption.
+    + discriminate.
     + intros t k0 f p c Hr. eapply has_ext; [exact He|]. eapply ri_look; eassumption.
     + intros t k0 c Hr. eapply ri_miss; eassumption.
     + intros t f n Hm. eapply covered_ext; [exact He|]. eapply ri_maps; eassumption.
     + intros t k0 v0 c Hr. eapply ri_done; eassumption.
     + apply (ri_nofail _ I).
     + rewrite upd_same. discriminate.
-    + intros f Hf. rewrite upd_other by lia. apply (ri_above _ I). lia.
+    + intros f Hf. rewrite upd_other by lia. now apply (ri_above _ I).
+  - (* roll *)
+    destruct (wstate s) as [|k loc|k|d] eqn:Hw; try discriminate.
+    + destruct (rfiles s (S (ractive s))) eqn:Hn; [discriminate|]. injection H as <-.
+      pose proof (ext_create _ _ Hn) as He.
+      constructor; cbn.
+      * intros k0 f p Hi. destruct (ri_idx _ I _ _ _ Hi) as (v0 & Hh). exists v0. eapply has_ext; eassumption.
+      * intros k0 f p Heq. injection Heq as <- ->. destruct (ri_wr _ I _ _ _ Hw) as (v0 & Hh). exists v0. eapply has_ext; eassumption.
+      * intros t k0 f p c Hr. eapply has_ext; [exact He|]. eapply ri_look; eassumption.
+      * intros t k0 c Hr. eapply ri_miss; eassumption.
+      * intros t f n Hm. eapply covered_ext; [exact He|]. eapply ri_maps; eassumption.
+      * intros t k0 v0 c Hr. eapply ri_done; eassumption.
+      * apply (ri_nofail _ I).
+      * rewrite upd_same. discriminate.
+      * intros f Hf. rewrite upd_other by lia. apply (ri_above _ I). lia.
+    + destruct (rfiles s (S (ractive s))) eqn:Hn; [discriminate|]. injection H as <-.
+      pose proof (ext_create _ _ Hn) as He.
+      constructor; cbn.
+      * intros k0 f p Hi. destruct (ri_idx _ I _ _ _ Hi) as (v0 & Hh). exists v0. eapply has_ext; eassumption.
+      * discriminate.
+      * intros t k0 f p c Hr. eapply has_ext; [exact He|]. eapply ri_look; eassumption.
+      * intros t k0 c Hr. eapply ri_miss; eassumption.
+      * intros t f n Hm. eapply covered_ext; [exact He|]. eapply ri_maps; eassumption.
+      * intros t k0 v0 c Hr. eapply ri_done; eassumption.
+      * apply (ri_nofail _ I).
+      * rewrite upd_same. discriminate.
+      * intros f Hf. rewrite upd_other by lia. apply (ri_above _ I). lia.
   - (* publish *)
-    destruct (wstate s) as [|k [f0 p0]|] eqn:Hw; try discriminate. injection H as <-.
-    constructor; cbn; try (now destruct I).
-    + intros k0 f p Hi. destruct (Nat.eq_dec k0 k) as [->|Hne].
+    destruct (wstate s) as [|k [f0 p0]|k|d] eqn:Hw; try discriminate.
+    + injection H as <-.
+      constructor; cbn; try (now destruct I).
+      intros k0 f p Hi. destruct (Nat.eq_dec k0 k) as [->|Hne].
       * rewrite upd_same in Hi. injection Hi as <- <-. eapply ri_wr; eassumption.
+      * rewrite upd_other in Hi by exact Hne. eapply ri_idx; eassumption.
+    + injection H as <-.
+      constructor; cbn; try (now destruct I).
+      intros k0 f p Hi. destruct (Nat.eq_dec k0 k) as [->|Hne].
+      * rewrite upd_same in Hi. discriminate.
       * rewrite upd_other in Hi by exact Hne. eapply ri_idx; eassumption.
   - (* writer returns *)
     destruct (wstate s) eqn:Hw; try discriminate. injection H as <-.
@@ -114,7 +146,7 @@ Proof.
     + intros t0 k0 f p c Hl. destruct (Nat.eq_dec t0 t) as [->|Hne].
       * rewrite upd_same in Hl. injection Hl as <- Hi <-.
         destruct (ri_idx _ I _ _ _ Hi) as (v0 & Hh). unfold rgmap. rewrite Hi.
-        pose proof (rvalue_has _ _ _ _ Hh) as Hv. subst v0. exact Hh.
+        pose proof (rvalue_has _ _ _ _ Hh) as Hv. exact (eq_ind _ (has (rfiles s) f p) Hh _ (eq_sym Hv)).
       * rewrite upd_other in Hl by exact Hne. eapply ri_look; eassumption.
     + intros t0 k0 c Hl. destruct (Nat.eq_dec t0 t) as [->|Hne].
       * rewrite upd_same in Hl. injection Hl as <- Hi <-. unfold rgmap. now rewrite Hi.
@@ -199,7 +231,7 @@ Theorem rollover_vs_gets es s :
   rrun true rinit es = Some s ->
   (forall t, rreaders s t <> GFailed) /\
   (forall t k v c, rreaders s t = GDone k v c -> v = c) /\
-  (forall k f p, ridx s k = Some (f, p) -> exists v, has (rfiles s) f p v).
+  (forall k f p, ridx s k = Some (f, p) -> exists v, has (rfiles s) f p (Some v)).
 Proof.
   intros H. pose proof (run_RI _ _ _ ri_init H) as I.
   split; [apply (ri_nofail _ I)|]. split; [apply (ri_done _ I)|apply (ri_idx _ I)].
@@ -211,13 +243,14 @@ Theorem writer_never_blocked es s :
   rrun true rinit es = Some s ->
   match wstate s with
   | WIdle => forall k v, rstep true s (WAppend k v) <> None
-  | WAppended _ _ => rstep true s WRoll <> None /\ rstep true s WPublish <> None
-  | WDone => rstep true s WReturn <> None
+  | WAppended _ _ | WAppendedDel _ => rstep true s WRoll <> None /\ rstep true s WPublish <> None
+  | WDone _ => rstep true s WReturn <> None
   end.
 Proof.
   intros H. pose proof (run_RI _ _ _ ri_init H) as I.
   destruct (wstate s) eqn:Hw; cbn [rstep]; rewrite ?Hw.
   - intros k v. destruct (rfiles s (ractive s)) eqn:Ha; [discriminate|]. now destruct (ri_active _ I).
+  - split; [|discriminate]. rewrite (ri_above _ I (S (ractive s))) by lia. discriminate.
   - split; [|discriminate]. rewrite (ri_above _ I (S (ractive s))) by lia. discriminate.
   - discriminate.
 Qed.
